@@ -395,12 +395,3 @@ Proof.
     destruct p2; try exact B2. apply IH.
 Qed.
 
-Lemma dsl_native_simple_cyc : forall st n self args r, dsl_native_simple st n self args = Some r -> dsl_cycP r.
-Proof.
-  intros st n self args r H.
-  destruct n; cbn [dsl_native_simple] in H; cbv zeta in H; try discriminate H;
-    try (injection H as <-);
-    try (destruct args as [|? [|? ?]]; injection H as <-).
-  all: try (repeat cyc_step; fail).
-  Show.
-Abort.
